@@ -21,6 +21,7 @@
 -/
 import Gen.SrcC11
 import CRModel.PyExtC11
+set_option linter.unusedSimpArgs false
 namespace CR.Cache
 open CR.PyC11
 
@@ -120,5 +121,116 @@ theorem tie_vertex_setters :
       lanItems.map fun i => derivedAct i (Gen.C11.table.prims "Lanelet" s true))
       = [[.keep, .drop, .keep], [.keep, .keep, .drop], [.keep, .keep, .drop]] := by
   decide +kernel
+
+/-! ## Part B: what the mutators do to the token structures (functional translation of the method bodies) -/
+
+theorem tie_invalidate_occupancy_set (p : TPred) :
+    Gen.TrajectoryPrediction_invalidate_occupancy_set p = { p with cache := none } := by
+  unfold Gen.TrajectoryPrediction_invalidate_occupancy_set
+  cases h : p.cache <;> simp [Id.run, pure, h] <;> (cases p; simp_all)
+
+/-- `TrajectoryPrediction.shape = …` as translated is the model's `predSetShape` branch of `Obs.step`. -/
+theorem tie_pred_set_shape (p : TPred) (v : Nat) :
+    Gen.TrajectoryPrediction_set_shape p v
+      = (let p' : TPred := { p with shape := v }
+         { p' with cache := (act .occupancySet .predSetShape).applySimple p'.derive p.cache }) := by
+  simp [Gen.TrajectoryPrediction_set_shape, tie_invalidate_occupancy_set, Id.run, pure, act, Action.applySimple, Action.apply]
+
+theorem tie_pred_set_trajectory (p : TPred) (d : TrajData) :
+    Gen.TrajectoryPrediction_set_trajectory p d = p.mutTraj .predSetTrajectory d := by
+  simp [Gen.TrajectoryPrediction_set_trajectory, tie_invalidate_occupancy_set, Id.run, pure, TPred.mutTraj, act,
+    Action.applySimple, Action.apply]
+
+theorem tie_pred_set_wheelbase (p : TPred) :
+    Gen.TrajectoryPrediction_set_wheelbase_lengths p
+      = { p with cache := (act .occupancySet .predSetWheelbase).applySimple p.derive p.cache } := by
+  simp [Gen.TrajectoryPrediction_set_wheelbase_lengths, tie_invalidate_occupancy_set, Id.run, pure, act,
+    Action.applySimple, Action.apply]
+
+theorem tie_pred_translate_rotate (p : TPred) (v : Nat) :
+    Gen.TrajectoryPrediction_translate_rotate p v = p.move .predTranslateRotate v := by
+  simp [Gen.TrajectoryPrediction_translate_rotate, tie_invalidate_occupancy_set, Id.run, pure, TPred.move, TPred.mutTraj, act,
+    Action.applySimple, Action.apply]
+
+/-- The obstacle delegates to its prediction: the same function, reached through `obsTranslateRotate`. -/
+theorem tie_pred_move_via_obstacle (p : Pred) (v : Nat) :
+    (match p with
+      | .traj q => Pred.traj (Gen.TrajectoryPrediction_translate_rotate q v)
+      | .setb _ ivs => Pred.setb v ivs) = p.move .obsTranslateRotate v := by
+  cases p <;> simp [Pred.move, tie_pred_translate_rotate, TPred.move, TPred.mutTraj, act]
+
+/-- `Obstacle.initial_state = …`: whether or not the object has wheelbase lengths, the slot holds the occupancy shape of
+    (obstacle shape, NEW initial state). -/
+theorem tie_set_initial_state (hw : Bool) (o : Obs) (v : Nat) (t0 : Int) :
+    Gen.Obstacle_set_initial_state hw o (v, t0) = (o.step (.setInitialState v t0)).2 := by
+  cases hw <;> simp [Gen.Obstacle_set_initial_state, Obs.step, Id.run, pure, act, Action.applySimple, Action.apply,
+    Obs.freshInitOcc]
+
+theorem tie_set_prediction (o : Obs) (hd : o.dynamic = true) (p : Option Pred) :
+    Gen.DynamicObstacle_set_prediction o p = (o.step (.setPrediction p)).2 := by
+  have h : ∀ (old : Option Pred) (q : Pred), Pred.adopt .drop old q = q := by
+    intro old q; cases q <;> cases old <;> simp [Pred.adopt]
+  cases p <;> simp [Gen.DynamicObstacle_set_prediction, Obs.step, hd, Id.run, pure, act, Action.applySimple, Action.apply, h]
+
+theorem tie_dynamic_translate_rotate (hw : Bool) (o : Obs) (hd : o.dynamic = true) (v : Nat) :
+    Gen.DynamicObstacle_translate_rotate hw o v = (o.step (.translateRotate v)).2 := by
+  have hm : ∀ p : Pred, (match p with
+      | .traj q => Pred.traj (Gen.TrajectoryPrediction_translate_rotate q v)
+      | .setb _ ivs => Pred.setb v ivs) = p.move .obsTranslateRotate v := fun p => tie_pred_move_via_obstacle p v
+  unfold Gen.DynamicObstacle_translate_rotate
+  simp only [tie_set_initial_state]
+  cases hp : o.pred <;>
+    simp [Obs.step, hd, hp, Id.run, pure, act, Action.applySimple, Action.apply, Obs.freshInitOcc] <;> (try exact hm _)
+
+theorem tie_static_translate_rotate (hw : Bool) (o : Obs) (hd : o.dynamic = false) (v : Nat) :
+    Gen.StaticObstacle_translate_rotate hw o v = (o.step (.translateRotate v)).2 := by
+  unfold Gen.StaticObstacle_translate_rotate
+  simp [tie_set_initial_state, Obs.step, hd, Id.run, pure, act, Action.applySimple, Action.apply, Obs.freshInitOcc]
+
+theorem sliceLast_pos {α : Type} (l : List α) (m : Int) (hm : 0 < m) : sliceLast l m = lastN m.toNat l := by
+  simp [sliceLast, lastN, hm]
+
+/-- THE HISTORY LOGIC of `update_initial_state` as the current source has it: for a positive bound the translated body is the
+    model's `updateInitialState` step (append the replaced state / signal / lanelet ids, new initial data, prediction := None,
+    keep the last `m` of all four lists); a non-positive bound fails the assertion before anything is changed. -/
+theorem tie_update_initial_state (hw : Bool) (o : Obs) (hd : o.dynamic = true) (v : Nat) (t0 : Int) (sig cen shp : Nat) (m : Int) :
+    Gen.DynamicObstacle_update_initial_state hw o (v, t0) sig cen shp m
+      = (if m ≤ 0 then .error .assert else .ok (o.step (.updateInitialState v t0 sig cen shp m)).2)
+    ∧ (m ≤ 0 → o.step (.updateInitialState v t0 sig cen shp m) = (.err .assert, o)) := by
+  constructor
+  · unfold Gen.DynamicObstacle_update_initial_state
+    by_cases hm : m ≤ 0
+    · have : ¬ m > 0 := by omega
+      simp [CR.Py.assert, hm, this, bind, Except.bind]
+    · have hpos : 0 < m := by omega
+      have hlen : ∀ n : Nat, ((n : Int) > m) = (n > m.toNat) := by
+        intro n; apply propext; omega
+      simp only [CR.Py.assert, gt_iff_lt, hpos, decide_true, if_true, hm, if_false, bind, Except.bind, tie_set_initial_state,
+        Gen.DynamicObstacle_set_prediction, Id.run, pure, sliceLast_pos _ _ hpos]
+      simp only [Obs.step, hd, Bool.not_true, Bool.false_eq_true, if_false, hm, act, Action.applySimple, Action.apply,
+        Obs.freshInitOcc, Pred.adopt, Option.map_none, List.length_append, List.length_cons, List.length_nil]
+      by_cases hl : o.hist.length + 1 > m.toNat
+      · have hl' : m < ((o.hist.length + 1 : Nat) : Int) := by omega
+        simp [hl, hl', pure, Except.pure]
+        intro h; exfalso; omega
+      · have hl' : ¬ m < ((o.hist.length + 1 : Nat) : Int) := by omega
+        simp [hl, hl', pure, Except.pure]
+        intro h; exfalso; omega
+  · intro hm
+    simp [Obs.step, hd, hm]
+
+/-- The cycle's setters: `cycle_elements=` and `time_offset=` empty the slot of the cumulative time steps, `active=` leaves it
+    (the model's `cycSpec.step … (.mutate …)`). -/
+theorem tie_cycle_setters (c : CycCell) (es : List CR.TL.Elem) (off : Int) (b : Bool) :
+    Gen.TrafficLightCycle_set_cycle_elements c es = cycSpec.step c (.mutate (.setElements es))
+    ∧ Gen.TrafficLightCycle_set_time_offset c off = cycSpec.step c (.mutate (.setOffset off))
+    ∧ Gen.TrafficLightCycle_set_active c b = cycSpec.step c (.mutate (.setActive b)) := by
+  have hi : ∀ c : CycCell, Gen.TrafficLightCycle_invalidate_cycle_init_timesteps c = { c with cache := none } := by
+    intro c
+    unfold Gen.TrafficLightCycle_invalidate_cycle_init_timesteps
+    cases h : c.cache <;> simp [Id.run, pure, h] <;> (cases c; simp_all)
+  refine ⟨?_, ?_, ?_⟩ <;>
+    simp [Gen.TrafficLightCycle_set_cycle_elements, Gen.TrafficLightCycle_set_time_offset, Gen.TrafficLightCycle_set_active, hi,
+      Id.run, pure, Spec.step, cycSpec, act, CycMut.kind, Action.apply]
 
 end CR.Cache
